@@ -25,7 +25,8 @@ impl ECDSA {
         let pub_key_bytes = pub_key.to_bytes_impl()?;
         let z = <Scalar as Reduce<U256>>::from_be_bytes_reduced(digest);
         let point = EncodedPoint::from_bytes(pub_key_bytes).map_err(|e| BSVErrors::CustomECDSAError(e.to_string()))?;
-        let key: AffinePoint<Secp256k1> = AffinePoint::<Secp256k1>::from_encoded_point(&point).unwrap();
+        let key: AffinePoint<Secp256k1> =
+            Option::from(AffinePoint::<Secp256k1>::from_encoded_point(&point)).ok_or_else(|| BSVErrors::CustomECDSAError("Public key is not a point on the curve".to_string()))?;
         key.verify_prehashed(z, &signature.sig)?;
         Ok(true)
     }
